@@ -174,7 +174,7 @@ func traceLine(work, line string, lineNo int, r *rng, waterEvery int) {
 				res := dC1 - rhs
 				scale := math.Abs(c1) + math.Abs(g.AUFNASUM-nday.nAufna) + math.Abs(g.OUTSUM-nday.nOut) + math.Abs(minp-nday.nMin)
 				clean := minC1 >= 1 && nday.nMinC1 >= 1 && !nday.nUnstable
-				emit(jobj{"k": "nday", "line": lineNo, "zeit": zeit, "res": res, "clean": clean, "outn_bottom": g.OUTN == g.N, "unstable": nday.nUnstable, "steps": day.steps})
+				emit(jobj{"k": "nday", "line": lineNo, "zeit": zeit, "res": res, "clean": clean, "outn_bottom": g.OUTN == g.N, "unstable": nday.nUnstable, "steps": day.steps, "ums": g.UMS, "dsumm": g.DSUMM, "mz": g.MZ, "meas": day.excluded})
 				if g.OUTN == g.N && g.N >= 2 && !g.AUTOFERT {
 					if !(res >= -1e-8*(1+scale)) {
 						oracleFail("n-balance-loss line=%d zeit=%d steps=%d residual=%g", lineNo, zeit, day.steps, res)
